@@ -24,6 +24,22 @@ package disk
 //@   0 < c.maxProxyBlobSize && c.maxProxyBlobSize <= B62()
 //@ pred lookupKey(kind, hash) = (kind == 0 ? "ac" : (kind == 1 ? "cas" : "raw")) + "/" + hash
 
+// The published v2 file naming (C20), spelled out. kind: 0 = AC, 1 = CAS, 2 = RAW.
+//@ pred fileBase(kind, legacy, hash, size) = kind == 2 ? pjoin3("raw.v2", hash[0:2], hash) : (kind == 0 ? pjoin3("ac.v2", hash[0:2], hash) :
+//@     (legacy ? pjoin3("cas.v2", hash[0:2], hash) : sprintf3("cas.v2/%s/%s-%d", boxstr(hash[0:2]), boxstr(hash), size)))
+//@ pred fileLoc(kind, legacy, hash, size, random) = kind == 2 ? pjoin3("raw.v2", hash[0:2], hash + "-" + random) : (kind == 0 ? pjoin3("ac.v2", hash[0:2], hash + "-" + random) :
+//@     (legacy ? sprintf3("cas.v2/%s/%s-%s.v1", boxstr(hash[0:2]), boxstr(hash), boxstr(random)) : sprintf4("cas.v2/%s/%s-%d-%s", boxstr(hash[0:2]), boxstr(hash), size, boxstr(random))))
+
+//@ func (c *diskCache) FileLocationBase(kind cache.EntryKind, legacy bool, hash string, size int64) string
+//@   serves C04 C15 C20
+//@   requires len(hash) >= 2
+//@   ensures[C04,C15,C20] form: result == fileBase(kind, legacy, hash, size)
+
+//@ func (c *diskCache) FileLocation(kind cache.EntryKind, legacy bool, hash string, size int64, random string) string
+//@   serves C04 C15 C20
+//@   requires len(hash) >= 2
+//@   ensures[C04,C15,C20] form: result == fileLoc(kind, legacy, hash, size, random)
+
 //@ func isSizeMismatch(requestedSize int64, foundSize int64) bool
 //@   serves C02 C10 C12 C18
 //@   ensures[C10] exact: result <==> mismatch(requestedSize, foundSize)
@@ -69,6 +85,7 @@ package disk
 //@ func (c *diskCache) availableOrTryProxy(kind cache.EntryKind, hash string, size int64, offset int64, zstd bool) (io.ReadCloser, int64, bool, error)
 //@   serves C02 C03 C05 C07 C12 C14 C17 C18
 //@   requires wfCache(c) && !muHeld && held >= 0 && len(hash) == 64
+//@   requires[C02] offsetrange: offset == 0 || (0 < offset && size > 0 && offset < size)
 //@   modifies lruState(c.lru), held, resN, hitN, hitSize
 //@   ensures[C07] unlocked: !muHeld
 //@   ensures[C03,C12] held: held == old(held) + ((result2 && size > 0 && result3 == nil) ? size : 0)
@@ -80,12 +97,14 @@ package disk
 //@   ensures[C12,C17] errclass: (result3 != nil && resN > old(resN)) ==> istype(result3, "*cache.Error")
 //@   ensures[C02] miss: result0 == nil ==> result1 == 0 - 1
 //@   call Reserve#* asserts[C05,C12] logical: arg1 == size && size <= c.maxProxyBlobSize && c.proxy != nil
+//@   call FileLocation#* asserts[C02,C04,C20] name: arg1 == kind && arg3 == hash && arg2 == item.legacy && arg4 == item.size && arg5 == item.random
 //@   call GetZstdReadCloser#* asserts[C02] args: arg2 == size && arg3 == offset && zstd
 //@   call GetUncompressedReadCloser#* asserts[C02] args: arg2 == size && arg3 == offset && !zstd
 
 //@ func (c *diskCache) get(ctx context.Context, kind cache.EntryKind, hash string, size int64, offset int64, zstd bool) (rc io.ReadCloser, s int64, rErr error)
 //@   serves C02 C03 C04 C07 C08 C12 C14 C15 C17 C18
 //@   requires wfCache(c) && !muHeld && held >= 0 && ctx != nil
+//@   requires[C02] unknownsize: size <= 0 ==> offset <= 0
 //@   modifies lruState(c.lru), held, resN, hitN, hitSize, adopted, tmpOpen, tmpName, tmpRandom, tfc.idum
 //@   ensures[C07] unlocked: !muHeld
 //@   ensures[C03,C12] noleak: held == old(held)
@@ -100,6 +119,8 @@ package disk
 //@   ensures[C02] miss: rc == nil ==> s == 0 - 1
 //@   call Get#* asserts[C12,C18] ask: arg2 == kind && arg3 == hash && arg4 == size && size <= c.maxProxyBlobSize && !muHeld
 //@   call commit#* asserts[C04,C08,C12] committed: arg1 == lookupKey(kind, hash) && arg3 == tmpName && arg4 == size && arg7 == tmpRandom && 0 <= arg5 && arg5 <= c.maxProxyBlobSize && !mismatch(size, arg5)
+//@   call FileLocationBase#* asserts[C04,C12,C20] name: arg1 == kind && arg3 == hash && arg2 == (kind == 1 && c.storageMode == 0) && 0 <= arg4 && !mismatch(size, arg4) && arg4 <= c.maxProxyBlobSize
+//@   call commit#* asserts[C04,C12] samesize: arg5 == foundSize
 //@   call commit#* asserts[C12] rawlength: (kind != 1 || c.storageMode == 0) ==> arg6 == arg5
 //@   call GetZstdReadCloser#* asserts[C02,C12] validated: arg3 == offset && zstd
 //@   call GetUncompressedReadCloser#* asserts[C02,C12] validated: arg3 == offset && !zstd
@@ -129,6 +150,7 @@ package disk
 //@   ensures[C01,C04] failed: rErr != nil ==> adopted == old(adopted)
 //@   ensures[C01] stored: rErr == nil ==> (0 <= size && size <= c.maxBlobSize && len(hash) == 64 && (isEmptyCas(kind, hash, size) || adopted == old(adopted) + 1))
 //@   call Reserve#* asserts[C05] logical: arg1 == size
+//@   call FileLocationBase#* asserts[C04,C20] name: arg1 == kind && arg3 == hash && arg4 == size && arg2 == (kind == 1 && c.storageMode == 0)
 //@   call writeAndCloseFile#* asserts[C01] declared: arg2 == r && arg3 == kind && arg4 == hash && arg5 == size && fileName(ref(arg6)) == tmpName && tmpOpen == old(tmpOpen) + 1
 //@   call commit#* asserts[C01,C04,C08] committed: arg1 == lookupKey(kind, hash) && arg3 == tmpName && arg4 == size && arg5 == size && arg7 == tmpRandom
 //@   call Put#* asserts[C12] writethrough: arg2 == kind && arg3 == hash && arg4 == size
